@@ -388,7 +388,61 @@ class Emission:
             await w.close()
 
 
+def run_nested_open(ctx: Ctx | None, case: dict) -> None:
+    """
+    E is the exit of circuit Y (owner R, who has not sent anything yet: Y's outside socket is closed) and the owner of a
+    circuit X of its own (exit F) whose id is given - every 32-bit id is a legal draw, 0 included. Somebody on R's IP
+    address answers X's outside socket at F with a datagram that is itself a data message of the tunnel overlay naming
+    Y. Nothing E receives that way came from Y's previous hop: Y's outside socket must stay closed, nothing is emitted.
+    """
+    c = case["nested_open"]
+
+    async def main(loop):
+        w = World(loop, 3)
+        try:
+            r, e, f = w.nodes
+            def peer_of(owner, target):
+                k = target.key.pub().key_to_bin()
+                return [p for p in owner.overlay.candidates if p.public_key.key_to_bin() == k][0]
+            y = await w.build_circuit(r, 1, seed=c["seed"], required_exit=peer_of(r, e))
+            forced = c["id"] & 0xFFFFFFFF
+            e.overlay._generate_circuit_id = lambda: forced  # noqa: SLF001 - one of the 2**32 legal outcomes
+            x = await w.build_circuit(e, 1, seed=c["seed"] + 1, required_exit=peer_of(e, f))
+            del e.overlay._generate_circuit_id
+            if y is None or x is None or x.circuit_id != forced:
+                raise Violation("P5", "nested_open:build", f"circuits not built (Y {y}, X {x})", case)
+            e.overlay.send_data(x.hop.address, x.circuit_id, ("5.5.5.5", 5555), ("0.0.0.0", 0), make_payload("dht", 24, w.prefix, 3))
+            await asyncio.sleep(0.3)
+            at_f = [t for t in loop.transports if t.local_addr[0] == "0.0.0.0" and not t.closed]
+            if not at_f:
+                raise Violation("P5", "nested_open:opener", "X's exit did not open its outside socket", case)
+            n_tr, sent0 = len(loop.transports), sum(len(t.sent) for t in loop.transports)
+            inner = make_payload(c["kind"], 40, w.prefix, 9)
+            nested = (w.prefix + b"\x01" + struct.pack(">I", y.circuit_id) + b"\x01\x05\x06\x07\x08\x00\x01"
+                      + b"\x01\x09\x09\x09\x09\x00\x09" + inner)
+            src = (r.address[0], 9) if c["from"] == "prev_ip" else tuple(r.address) if c["from"] == "prev_addr" else ("7.7.7.7", 7)
+            at_f[0].inject(nested, src)
+            await asyncio.sleep(0.5)
+            if len(loop.transports) != n_tr:
+                raise Violation("P4", "enable:nested", f"an outside socket {[t.local_addr for t in loop.transports[n_tr:]]} was "
+                                f"opened at E for circuit Y by a data message that arrived as content of E's own circuit "
+                                f"{forced} (sent to that circuit's exit by {src}); Y's previous hop {r.address} sent nothing", case)
+            if sum(len(t.sent) for t in loop.transports) != sent0:
+                raise Violation("P4", "emit:nested", "a nested data message made E emit a datagram for a circuit whose owner sent "
+                                                     "nothing", case)
+        finally:
+            await w.close()
+    try:
+        vloop.run(main)
+    finally:
+        if ctx is not None:
+            ctx.case(("nested_open", c["id"], c["kind"], c["from"], c["seed"]), True, cls="nested_open:id%s" % (
+                "0" if c["id"] == 0 else "max" if c["id"] == 0xFFFFFFFF else "other"), sample=case)
+
+
 def run_case(ctx: Ctx | None, case: dict) -> None:
+    if "nested_open" in case:
+        return run_nested_open(ctx, case)
     if "sweep" in case:
         d = case["sweep"]
         fs = set(case["flags"])
@@ -437,6 +491,17 @@ def _strategy():
 
 
 def _emit_shard(ctx: Ctx, shard: int, nshards: int, n: int) -> None:
+    k = 0
+    for cid in (0, 1, 0x7FFFFFFF, 0x80000000, 0xFFFFFFFF):
+        for kind in ("dht", "ipv8_tunnel", "junk"):
+            for frm in ("prev_ip", "prev_addr", "elsewhere"):
+                k += 1
+                if k % nshards != shard:
+                    continue
+                try:
+                    run_case(ctx, {"nested_open": {"id": cid, "kind": kind, "from": frm, "seed": 5 + k}})
+                except Violation as v:
+                    ctx.violation(v)
     hyp_run(ctx, "emission", _strategy(), lambda c: run_case(ctx, c), n)
 
 
